@@ -298,3 +298,66 @@ def preamble_fns(facts):
                         c.add(base)
         facts.__dict__["_preamble_fns"] = c
     return c
+
+
+def writeable_model(facts):
+    """How `Request.writeable` says "writeable": the value every non-constructor write stores ("raised"): ('b', 1) for a bool flag,
+    ('v', Variant, adt) when a private fieldless enum replaced the bool.  None if the writes disagree."""
+    c = facts.__dict__.get("_writeable_model", 0)
+    if c != 0:
+        return c
+    import facts as F
+    toks = set()
+    for (b, bi, how, sp) in F.field_accesses(facts, "async_io::Request", "writeable"):
+        if how != "write":
+            continue
+        r = ir.Resolver(b)
+        for si, st in enumerate(b.blocks[bi]["st"]):
+            if st["k"] == "assign" and any(el.get("n") == "writeable" for el in st["place"].get("p", [])):
+                v = ir.peel(r.rvalue(st["rv"], (bi, si)))
+                cvv = ir.const_value(v)
+                if cvv is not None:
+                    toks.add(('b', cvv))
+                elif v[0] == 'agg' and v[1] == 'adt' and not v[3]:
+                    toks.add(('v', v[2].rsplit("::", 1)[-1], v[2].rsplit("::", 1)[0]))
+                else:
+                    toks.add(('?', ir.show(v)[:40]))
+    m = next(iter(toks)) if len(toks) == 1 else None
+    facts.__dict__["_writeable_model"] = m
+    return m
+
+
+def writeable_truth(facts, de, lab):
+    """On this switch edge, is the request known to be writeable (True) / not writeable (False)?  None: the condition is not about the flag.
+    Recognised: the flag itself, the public accessor is_writeable(), the discriminant of / an equality test on the enum form."""
+    if de is None or not isinstance(lab, tuple):
+        return None
+    m = writeable_model(facts)
+    x = ir.peel(de, casts=False)
+    t = lab[0] == 'otherwise' or (lab[0] == 'case' and lab[1] != 0)
+
+    def is_flag(y):
+        y = ir.peel(y)
+        return y[0] == 'field' and y[2] == 'writeable'
+    if is_flag(x):
+        return t if (m is None or m == ('b', 1)) else None
+    if x[0] == 'call' and x[1] == "async_io::Request::is_writeable":
+        return t
+    if m is not None and m[0] == 'v':
+        if x[0] == 'discr' and is_flag(x[1]):
+            try:
+                d = facts.enum_discr(m[2])
+            except Exception:
+                return None
+            if lab[0] == 'case':
+                return d.get(m[1]) == lab[1]
+            left = [k for k, v in d.items() if v not in lab[1]]
+            return (left[0] == m[1]) if len(left) == 1 else None
+        if x[0] == 'call' and (x[1].endswith("PartialEq>::eq") or x[1].endswith("PartialEq>::ne")) and len(x[2]) == 2:
+            a, b = ir.peel(x[2][0]), ir.peel(x[2][1])
+            for (u, w) in ((a, b), (b, a)):
+                if is_flag(u) and w[0] == 'agg' and w[1] == 'adt':
+                    same = (w[2].rsplit("::", 1)[-1] == m[1])
+                    eq = t if x[1].endswith("::eq") else (not t)
+                    return eq if same else (not eq if len(facts.enum_discr(m[2])) == 2 else None)
+    return None
